@@ -1,5 +1,5 @@
 """C14 - scalar types are exact commutative rings with canonical representatives."""
-import e1_ratio, e2_float, opvariants
+import e1_ratio, e2_float, opvariants, e20_quadint
 
 LEVEL = 'other'
 EXPLANATION = ('Static analysis of the MIR of yui::types::{ratio,ff,f2,qint}: (E1) path-sensitive symbolic summaries prove '
@@ -10,7 +10,8 @@ EXPLANATION = ('Static analysis of the MIR of yui::types::{ratio,ff,f2,qint}: (E
                'over the API). FF<p> is built only from rem_euclid results / 0 / 1. (E2) no float on any data or control path of '
                'Add/Sub/Mul/Neg/Eq/Ord/Zero/One of the scalar types (order consistent with Eq for all magnitudes). (OPV) every '
                'by-value / by-ref / assigning operator variant is a pure in-order delegation to the single hand-written body. '
-               'NOT decided: the ring axioms as arithmetic, the QuadInt product formula.')
+               '(E20) the QuadInt product, conjugate and norm formulas are polynomial identities of Z[w] symbolically in D, per congruence class of D and per zero-test shortcut. '
+               'NOT decided: the ring axioms of the machine / big integer types themselves (num-traits, num-bigint are trusted), overflow.')
 TRUSTED = ['rustc MIR of the current tree', 'x op= y on a field behaves as x := op(x, y) (operator trait contract)',
            'theorem: a cross-cancelled product of reduced fractions is reduced; EucRing::gcd returns the normalised gcd (C15/E3)',
            'code outside yui::types::ratio cannot reach the private fields (checked from the ADT facts)']
@@ -42,4 +43,7 @@ def run(ctx, rep):
     e1_ratio.check_ff(facts, rep)
     e2_float.apply(facts, rep, scope, 'C14', floor_scope=100)
     opvariants.run(facts, rep, SCALARS, 130)
+    rep.rule('E20', e20_quadint.__doc__.strip().split('\n')[0])
+    e20_quadint.selftest(rep)
+    e20_quadint.run(facts, rep, parts=('Q1', 'Q2'))
     rep.callsites += sum(len(facts.bodies[k].calls()) for k in rep.functions if k in facts.bodies)
